@@ -37,4 +37,17 @@ PROPS["C20"] = {
     ],
 }
 
+PROPS["C17"] = {
+    "lean": ["OlricModel.Props.C17"],
+    "streams": [("codec", (6, 2500), (40, 20000)), ("kv", (10, 300), (100, 400))],
+    "model": True,
+    "level_text": "Round-trip theorems for all inputs: decodeRec(encodeRec r) = r for every encodable record (any key/value bytes, any length below the field widths); ParseInt/ParseUint of the decimal text of n is n for every width when in range and a range error otherwise; Put-then-Get returns the stored record in every reachable store state; the two size limits are exact and a refused insert changes nothing; a record moved inside a table arrives unchanged. Tied to internal/resp, entry.Encode/Decode and kvstore by the codec and kv streams (byte-for-byte comparison).",
+    "design_ref": "DESIGN.md §6 C17",
+    "modelled": "internal/kvstore/entry/entry.go, internal/resp/{encoder,scan}.go integer paths, table layout (Base/Codec.lean)",
+    "assumptions": [
+        "A-float: strconv.ParseFloat(AppendFloat(f,'f',-1,64)) = f and the float32 widening; A-time: RFC3339Nano round trip; BinaryMarshaler bytes verbatim — not proved (Lean's Float is opaque to the kernel); the codec stream checks the implementation against these on boundary values",
+        "strconv is modelled by fmtInt/parseInt (Base/Codec.lean) and compared byte-for-byte on generated and boundary inputs",
+    ],
+}
+
 NOT_CLAIMED = {}
